@@ -61,6 +61,10 @@ func (b *message) ReadUint32() (r uint32) {
 func (b *message) ReadString() (r string) {
 	end := b.offset
 	maximum := uint32(len(b.data))
+	if end >= maximum {
+		// nothing left (the previous string was not terminated)
+		return ""
+	}
 	for ; end != maximum && b.data[end] != 0; end++ {
 	}
 	r = string(b.data[b.offset:end])
@@ -98,8 +102,15 @@ func (m *MatchPostgres) Match(cx *layer4.Connection) (bool, error) {
 		return false, err
 	}
 
-	// Get actual message length
-	data := make([]byte, binary.BigEndian.Uint32(head)-initMessageSizeLength)
+	// Get actual message length: it counts itself and is followed by a 4-byte
+	// code at least; a startup message larger than the matching buffer cannot be
+	// matched. Without these checks a length below 4 wrapped around to a 4 GiB
+	// allocation and a length of 4..7 made the reads below panic.
+	length := binary.BigEndian.Uint32(head)
+	if length < initMessageSizeLength+4 || length > layer4.MaxMatchingBytes {
+		return false, nil
+	}
+	data := make([]byte, length-initMessageSizeLength)
 	if _, err := io.ReadFull(cx, data); err != nil {
 		return false, err
 	}
